@@ -61,6 +61,7 @@ theorem delayed_only_if_offered (cd se : Bool) (wh : Where) (obj : Bytes) (s : L
       · rename_i hc; exact ⟨hc, hw⟩
       · split at h
         · cases h; cases hd
+        · cases h; cases hd
         · split at h
           · cases h; cases hd
           · cases h
@@ -78,5 +79,12 @@ theorem rounds_make_progress (ks : List Nat) (q : List String) :
 
 /-- non-vacuity: three delayed paths, two of them ready at the first call -/
 example : announce [1, 5] ["a", "b", "c"] = [["a", "b"], ["c"], []] := by decide
+
+/-- a file of the wrong size at the object's path changes nothing: the request is answered as if the
+    path were empty (delayed when that is offered, downloaded otherwise) — the repaired defect D48 -/
+theorem wrong_size_file_is_not_the_object (cd se : Bool) (obj : Bytes) (s : LfsA.Stream) :
+    answerSmudge cd se .stale obj s = answerSmudge cd se .server obj s := by
+  unfold answerSmudge
+  split <;> simp
 
 end C14
